@@ -76,6 +76,89 @@ theorem reprint_nan (E M b : Nat) (hnan : isNaNBits E M b = true) :
   unfold reprint decode
   simp [hnan.1, hnan.2, encode]
 
+/-- decoding an encoding assembled from a sign, an exponent field and a significand -/
+theorem decode80_mk (s : Bool) (e m : Nat) (he : e < 2 ^ 15) :
+    decode80 ((if s then 2 ^ 15 else 0) + e) m =
+      (if e == 2 ^ 15 - 1 then (if m == 2 ^ 63 then .inf s else .nan s)
+       else if e == 0 then (if m == 0 then .zero s else .fin s m (1 - 16383 - 63))
+       else if m < 2 ^ 63 then .nan s
+       else .fin s m ((e : Int) - 16383 - 63)) := by
+  have h1 : ((if s then 2 ^ 15 else 0) + e) % 2 ^ 15 = e := by
+    cases s
+    · simp only [Bool.false_eq_true, if_false, Nat.zero_add]; exact Nat.mod_eq_of_lt he
+    · simp only [if_true]; rw [Nat.add_mod_left]; exact Nat.mod_eq_of_lt he
+  have h2 : (((if s then 2 ^ 15 else 0) + e) / 2 ^ 15 % 2 == 1) = s := by
+    cases s
+    · have : e / 2 ^ 15 = 0 := Nat.div_eq_of_lt he
+      simp only [Bool.false_eq_true, if_false, Nat.zero_add, this]; decide
+    · have : (2 ^ 15 + e) / 2 ^ 15 = 1 := by
+        rw [Nat.add_div_left _ (by decide), Nat.div_eq_of_lt he]
+      simp only [if_true, this]; decide
+  unfold decode80
+  simp only [h1, h2]
+
+/-- **every encoding**: for every 80-bit pattern — canonical or not (pseudo-denormals, unnormals, pseudo-infinities, pseudo-NaNs) — what is printed denotes,
+    read again, the value the pattern was read as -/
+theorem reprint80_value (se m : Nat) :
+    decode80 (encode80 (decode80 se m)).1 (encode80 (decode80 se m)).2 = decode80 se m := by
+  have he : se % 2 ^ 15 < 2 ^ 15 := Nat.mod_lt _ (by decide)
+  generalize hs : (se / 2 ^ 15 % 2 == 1) = s
+  have hd : decode80 se m =
+      (if se % 2 ^ 15 == 2 ^ 15 - 1 then (if m == 2 ^ 63 then .inf s else .nan s)
+       else if se % 2 ^ 15 == 0 then (if m == 0 then .zero s else .fin s m (1 - 16383 - 63))
+       else if m < 2 ^ 63 then .nan s
+       else .fin s m (((se % 2 ^ 15 : Nat) : Int) - 16383 - 63)) := by
+    unfold decode80; simp only [hs]
+  rw [hd]
+  generalize se % 2 ^ 15 = e at he
+  have hnan : decode80 (encode80 (.nan s)).1 (encode80 (.nan s)).2 = .nan s := by
+    simp only [encode80]
+    rw [decode80_mk s (2 ^ 15 - 1) _ (by decide)]
+    simp
+  by_cases h1 : e = 2 ^ 15 - 1
+  · subst h1
+    simp only [beq_self_eq_true, if_true]
+    by_cases h2 : m = 2 ^ 63
+    · subst h2
+      simp only [beq_self_eq_true, if_true, encode80]
+      rw [decode80_mk s (2 ^ 15 - 1) _ (by decide)]
+      simp
+    · have : (m == 2 ^ 63) = false := by simpa using h2
+      simp only [this, Bool.false_eq_true, if_false]
+      exact hnan
+  · have h1' : (e == 2 ^ 15 - 1) = false := by simpa using h1
+    simp only [h1', Bool.false_eq_true, if_false]
+    by_cases h3 : e = 0
+    · subst h3
+      simp only [beq_self_eq_true, if_true]
+      by_cases h4 : m = 0
+      · subst h4
+        simp only [beq_self_eq_true, if_true, encode80]
+        have := decode80_mk s 0 0 (by decide)
+        simp only [Nat.add_zero] at this
+        rw [this]; simp
+      · have h4' : (m == 0) = false := by simpa using h4
+        simp only [h4', Bool.false_eq_true, if_false, encode80]
+        by_cases h5 : m < 2 ^ 63
+        · simp only [h5, if_true]
+          have := decode80_mk s 0 m (by decide)
+          simp only [Nat.add_zero] at this
+          rw [this]; simp [h4']
+        · simp only [h5, if_false]
+          have e1 : ((1 : Int) - 16383 - 63 + 16383 + 63).toNat = 1 := by decide
+          rw [e1, decode80_mk s 1 m (by decide)]
+          simp [h5]
+    · have h3' : (e == 0) = false := by simpa using h3
+      simp only [h3', Bool.false_eq_true, if_false]
+      by_cases h5 : m < 2 ^ 63
+      · simp only [h5, if_true]; exact hnan
+      · simp only [h5, if_false, encode80]
+        have e2 : (((e : Nat) : Int) - 16383 - 63 + 16383 + 63).toNat = e := by
+          have : (((e : Nat) : Int) - 16383 - 63 + 16383 + 63) = ((e : Nat) : Int) := by omega
+          rw [this]; exact Int.toNat_natCast _
+        rw [e2, decode80_mk s e m he]
+        simp [h1', h3', h5]
+
 end Llir.FloatLit
 
 namespace Llir.FloatLit
